@@ -4,7 +4,7 @@ recording backends (lib/backend.py).
 Monitor (from RFC 3875, the FastCGI and SCGI specifications and RFC 9110): what the backend received is a well-formed message
 of its protocol that carries exactly the request."""
 import json, os, re, socket, sys, time, urllib.parse
-import vlib, srv, backend
+import vlib, srv, backend, h2c
 from vlib import hx
 sys.path.insert(0, os.path.join(vlib.VERIF, "props"))
 import C04 as H1
@@ -40,7 +40,10 @@ def gen_request(rng, sid, tier):
     off = rng.randrange(4096); body = PAT[off:off + n]
     framing = "none" if method in (b"GET", b"DELETE") else rng.choice(["cl", "cl", "chunked"])
     seg = rng.choice(["whole", "whole", "pieces", "small-chunks-first"])
-    return dict(kind=kind, sid=sid, method=method, target=target, path=path, query=(query + b"&" if query else b"") + b"id=%d" % sid, hdrs=hdrs, body=body, framing=framing, seg=seg)
+    rq = dict(kind=kind, sid=sid, method=method, target=target, path=path, query=(query + b"&" if query else b"") + b"id=%d" % sid, hdrs=hdrs, body=body, framing=framing, seg=seg)
+    # every sixth CGI-type request or so travels over HTTP/2 instead (bodies that fit the initial flow-control window; HTTP/2 has no chunked coding)
+    rq["h2"] = kind in ("fcgi", "scgi") and framing in ("none", "cl") and len(body) <= 60000 and rng.random() < 0.18
+    return rq
 
 
 def wire_request(rq, rng):
@@ -107,7 +110,7 @@ def judge_cgi(rq, rec):
         k = next((j for j in range(min(len(body), len(rq["body"]))) if body[j] != rq["body"][j]), min(len(body), len(rq["body"])))
         return "request body differs: client sent %d bytes, backend received %d (first difference at %d)" % (len(rq["body"]), len(body), k)
     want = {b"CONTENT_LENGTH": b"%d" % len(rq["body"]), b"REQUEST_METHOD": rq["method"], b"QUERY_STRING": rq["query"], b"REQUEST_URI": rq["target"],
-            b"SERVER_PROTOCOL": b"HTTP/1.1", b"GATEWAY_INTERFACE": b"CGI/1.1"}
+            b"SERVER_PROTOCOL": b"HTTP/2.0" if rq.get("h2") else b"HTTP/1.1", b"GATEWAY_INTERFACE": b"CGI/1.1"}
     for k, v in want.items():
         if d.get(k) != [v]: return "meta-variable %s is %r, RFC 3875 says %r" % (k.decode(), d.get(k), v)
     # RFC 3875 4.1.5/4.1.13: SCRIPT_NAME + PATH_INFO is the (decoded) path; with check-local disabled lighttpd's documented split is after the first
@@ -195,7 +198,7 @@ def model_check(rq, rec, model):
                 break
         else: merged.append((k, v))
     full = urllib.parse.unquote_to_bytes(rq["path"]); k2 = full.find(b"/", len(b"/" + rq["kind"].encode() + b"/"))
-    l1 = "V %s %s %s %s %s %s %d %s" % (hx(rq["method"]), hx(b"HTTP/1.1"), hx(rq["target"]), hx(full if k2 < 0 else full[:k2]), hx(b"" if k2 < 0 else full[k2:]), hx(rq["query"]), len(rq["body"]),
+    l1 = "V %s %s %s %s %s %s %d %s" % (hx(rq["method"]), hx(b"HTTP/2.0" if rq.get("h2") else b"HTTP/1.1"), hx(rq["target"]), hx(full if k2 < 0 else full[:k2]), hx(b"" if k2 < 0 else full[k2:]), hx(rq["query"]), len(rq["body"]),
                                       " ".join(hx(k) + " " + hx(v) for k, v in merged))
     l2 = "E " + " ".join(hx(k) + " " + hx(v) for k, v in rec["pairs"])
     _, out, _ = vlib.run_lines(model, [l1, l2])
@@ -217,6 +220,24 @@ def run_mode(ctx, stream, reqs, sanitize=False):
         for rq in reqs:
             be = {"fcgi": fb, "scgi": sb, "px": hb}[rq["kind"]]
             with be.lock: n0 = len(be.requests)
+            if rq.get("h2"):
+                try:
+                    c = h2c.Conn(s.port, timeout=15.0)
+                    try:
+                        hd = [(k, v) for k, v in rq["hdrs"]] + ([(b"content-length", b"%d" % len(rq["body"]))] if rq["framing"] == "cl" else [])
+                        st = c.wait([c.send_request(rq["method"], rq["target"], headers=hd, body=rq["body"] if rq["framing"] == "cl" else None, authority=b"h.example")])[0]
+                    finally: c.close()
+                    data = b"HTTP/2 " + (dict(st["headers"]).get(b":status", b"?") if st and st.get("headers") else b"no-response") + b"\r\n\r\n"
+                except Exception as e: data = b"<<error %s>>" % str(e).encode()
+                rec = None
+                t0 = time.time()
+                while time.time() - t0 < 2.0:
+                    with be.lock:
+                        if len(be.requests) > n0: rec = be.requests[n0]; break
+                    time.sleep(0.005)
+                out.append((rec, data[:200]))
+                if not s.alive(): break
+                continue
             so = s.connect(timeout=15.0)
             try:
                 for i, sg in enumerate(rq["wire"]):
@@ -247,7 +268,7 @@ def run_mode(ctx, stream, reqs, sanitize=False):
 def enc_rq(rq):
     return dict(kind=rq["kind"], sid=rq["sid"], method=rq["method"].decode(), target=rq["target"].hex(), path=rq["path"].hex(), query=rq["query"].hex(),
                 hdrs=[[k.hex(), v.hex()] for k, v in rq["hdrs"]], bodylen=len(rq["body"]), bodyoff=PAT.find(rq["body"][:64]) if rq["body"] else 0, framing=rq["framing"], seg=rq["seg"],
-                wire_lens=[len(x) for x in rq["wire"]][:80])
+                wire_lens=[len(x) for x in rq["wire"]][:80], http2=bool(rq.get("h2")))
 
 
 def run(ctx):
